@@ -2,7 +2,9 @@
 
 One generic engine interprets a generated SEQUENCE of public queries (data:
 query names from a per-class table built by introspection plus explicit
-argument patterns) against one object and reports three groups of clauses:
+argument patterns) against one object and reports four groups of clauses
+(<Class> = the class that DEFINES the interfering / called method, so that a
+root cause has the same signature whatever subclass the object has):
 
   order/<Class>:<interferer>-><victim>      a deterministic query returns
         another value than on a FRESH TWIN on which only that query is
@@ -15,12 +17,23 @@ argument patterns) against one object and reports three groups of clauses:
         edited an array the library had already returned / memoised
   repeat/<Class>:<query>                    the same deterministic query
         issued twice in a row returns two different values
-  input/<Class>:<call>:<input>              a caller-owned array (or shared
-        data object) differs byte-wise from its snapshot after a constructor
-        or query that is not documented as in-place
+  input/<Class>:<call>:<input>              a caller-owned array differs
+        byte-wise (bytes + dtype + shape) from its snapshot after a
+        constructor (<call> = "<init>" / "new:<Kind>") or a query that is not
+        documented as in-place; the same for the observable state of a SHARED
+        data object (observable(), anomaly(), phase_mean(), _full_observable,
+        grids), whose reference value comes from a data object without history
 
-Randomised methods (surrogates, shuffles, random copies) take part only as
-interferers, with both library RNGs seeded from integers in the case.
+After a reported modification the harness puts the array back (restores the
+snapshot in place) so that ONE root cause gives ONE signature and the search
+continues behind it; if the object keeps a reference to the modified input
+and derived state (Surrogates) the sequence stops instead.
+
+Randomised methods (surrogates, shuffles, random cross links) take part only
+as interferers.  Both library RNGs are seeded before every call from
+(case seed, query name), so methods that draw random numbers internally (kNN
+tie-breaking noise, ARPACK start vectors) are deterministic functions of the
+case and comparable with their isolated evaluation.
 """
 import inspect
 import re
@@ -37,9 +50,14 @@ PROPERTY = "C06"
 RULE = ("cases = (object inputs, sequence of public query names with repeat "
         "flags, RNG seed); classes: Network, GeoNetwork (+ its GeoGrid), "
         "InteractingNetworks with node lists, ResNetwork, the climate network "
-        "classes built one after another from ONE shared ClimateData, "
-        "Data/ClimateData, RecurrencePlot family, VisibilityGraph, Surrogates, "
-        "CouplingAnalysis, EventSeries; enumerated part = ordered pairs "
+        "classes built one after another in generated order from ONE shared "
+        "ClimateData (constructors as pseudo queries 'new:<Kind>' of the data "
+        "object), each climate network class with its own queries, "
+        "Data/ClimateData with windows, SpatialNetwork + Grid, RecurrencePlot "
+        "/ RecurrenceNetwork / CrossRecurrencePlot / JointRecurrencePlot / "
+        "JointRecurrenceNetwork / InterSystemRecurrenceNetwork, "
+        "VisibilityGraph, Surrogates, CouplingAnalysis, EventSeries, static "
+        "helpers with caller arrays; enumerated part = ordered pairs "
         "(q1, q2) of the Network / GeoNetwork query tables on fixed graphs "
         "(all pairs in the thorough tier, a strided sample in quick) run as "
         "q1 q2 q1 q2. Non-trivial = a checked deterministic query is preceded "
@@ -67,6 +85,18 @@ ASSUMPTIONS = [
     "CouplingAnalysis.symmetrize_by_absmax ('returns the in-place changed "
     "matrices'); their array arguments are exempt from the input clause",
     "history length <= 8 and a finite argument-pattern table per method",
+    "a constructor that rejects its input is counted (label "
+    "construct_raised), not failed: validity of constructors is C05/C07/C09",
+    "defects that act inside a constructor on the object's OWN state are "
+    "invisible to a fresh-twin differential (the twin runs the same "
+    "constructor); caller inputs and shared data are still compared",
+    "RainfallClimateNetwork takes part as interferer / for the input clause "
+    "only: its similarity matrix depends on heap contents (the kernel reads "
+    "the int8 event mask through int*, C20's finding), so none of its values "
+    "is a deterministic function of the inputs",
+    "InteractingNetworks.RandomlyRewireCrossLinks and the geomodel rewiring "
+    "methods loop until a random proposal is accepted (hang risk) and are "
+    "not called",
 ]
 
 TOL = 1e-9
@@ -349,16 +379,41 @@ class Family:
     def table(self, case):        # -> dict name -> Q applicable to this case
         raise NotImplementedError
 
-    def shared(self, obj, inp):   # -> dict name -> value (observable state of
-        return {}                 #    shared objects, snapshotted like inputs)
+    def shared(self, obj, inp):   # -> dict name -> thunk giving observable
+        return {}                 #    state of shared objects (like inputs)
+
+    def baseline_object(self, case, inp):
+        """Object without history on which shared() gives the reference."""
+        return self.construct(case, inp)
 
     def cls_name(self, case):
         return self.name
 
     def key(self, case):
-        c = {k: v for k, v in case.items() if k not in ("seq", "seed", "q1",
-                                                         "q2", "order")}
+        # the seed stays in the key: kNN tie-breaking noise / ARPACK start
+        # vectors make some isolated values a function of it
+        c = {k: v for k, v in case.items() if k not in ("seq", "q1", "q2")}
         return self.name + ":" + case_hash(c)
+
+
+_BASE = {}
+
+
+def shared_baseline(fam, case):
+    key = fam.key(case)
+    if key not in _BASE:
+        if len(_BASE) > 500:
+            _BASE.clear()
+        inp = fam.inputs(case)
+        try:
+            obj = fam.baseline_object(case, inp)
+            _BASE[key] = {k: snap(th()) for k, th in
+                          fam.shared(obj, inp).items()}
+        except HarnessError:
+            raise
+        except Exception:  # pylint: disable=broad-except
+            _BASE[key] = {}
+    return _BASE[key]
 
 
 _ISO = {}          # (family key, query) -> ("val", canon) | ("exc", type name)
@@ -401,8 +456,11 @@ class Session:
         self.obj = obj
         self.ok = True
         self.check_inputs("<init>", ())
-        self.shared_snaps = {k: snap(v) for k, v in
-                             self.fam.shared(obj, self.inp).items()}
+        # shared state is compared with its value on a twin WITHOUT history
+        # (not with a snapshot of this object, whose constructor may already
+        # have edited it)
+        self.shared_snaps = dict(shared_baseline(self.fam, self.case))
+        self.check_shared("<init>")
         return True
 
     def own(self, call):
@@ -439,15 +497,10 @@ class Session:
     def check_shared(self, call):
         if not self.shared_snaps:
             return
-        cur = self.fam.shared(self.obj, self.inp)
-        seen = set()
-        for k, v in cur.items():
+        for k, thunk in self.fam.shared(self.obj, self.inp).items():
+            v = thunk()
             s = snap(v)
             if k in self.shared_snaps and s != self.shared_snaps[k]:
-                if id(v) in seen:       # same array under a second name
-                    self.shared_snaps[k] = snap(v)
-                    continue
-                seen.add(id(v))
                 if self.report:
                     self.rec.fail("input/%s:%s:%s" % (self.own(call), call,
                                                       k),
@@ -1487,12 +1540,20 @@ class DataFamily(Family):
 
     def shared(self, obj, inp):
         # pylint: disable=protected-access
-        return {"data.anomaly()": obj.anomaly(),
-                "data.observable()": obj.observable(),
-                "data.phase_mean()": obj.phase_mean(),
-                "data._full_observable": obj._full_observable,
-                "data.grid": obj.grid._grid,
-                "data._full_grid": obj._full_grid._grid}
+        # thunks, evaluated and checked one after the other (raw state first,
+        # memoised derived state after it) so that an edited array is put
+        # back before anything is derived from it; with anomalies=True the
+        # observable IS the anomaly array and is reported under that name
+        out = {"data._full_observable": lambda: obj._full_observable,
+               "data.grid": lambda: obj.grid._grid,
+               "data._full_grid": lambda: obj._full_grid._grid}
+        if obj.anomalies:
+            out["data.anomaly()"] = obj.observable
+        else:
+            out["data.observable()"] = obj.observable
+            out["data.anomaly()"] = obj.anomaly
+        out["data.phase_mean()"] = obj.phase_mean
+        return out
 
     def table(self, case):
         return cached_table("ClimateData", data_table)
@@ -1675,7 +1736,12 @@ class ClimNetFamily(Family):
         return net
 
     def shared(self, obj, inp):
+        if not hasattr(obj, "_verif_data"):     # baseline: the data itself
+            return DATA.shared(obj, inp)
         return DATA.shared(obj._verif_data, inp)  # pylint: disable=W0212
+
+    def baseline_object(self, case, inp):
+        return DATA.construct(case, inp)
 
     def table(self, case):
         return cached_table("climnet:" + case["cls"],
